@@ -96,8 +96,10 @@ class UnorderedConverter(XMLSchemaConverter):
                 ns_name = self.unmap_qname(name, xmlns=self.get_xmlns_from_data(value))
                 content_lu[ns_name] = [value]
             elif isinstance(value[0], (MutableMapping, MutableSequence)):
-                ns_name = self.unmap_qname(name, xmlns=self.get_xmlns_from_data(value[0]))
-                content_lu[ns_name] = value
+                for item in value:
+                    # each item can redeclare the prefix used by the common key
+                    ns_name = self.unmap_qname(name, xmlns=self.get_xmlns_from_data(item))
+                    content_lu.setdefault(ns_name, []).append(item)
             else:
                 # `value` is a list but not a list of lists or list of dicts.
                 ns_name = self.unmap_qname(name)
